@@ -174,7 +174,16 @@ theorem spreadRefused_iff (names : List (List Char × Int)) (total : Int) :
     spreadRefused names total = true ↔
       (Gen.C15Scen.spreadTotalRefused total ∨ ∃ nc ∈ names, Gen.C15Scen.spreadCntRefused nc.2) := by
   unfold spreadRefused Gen.C15Scen.spreadTotalRefused Gen.C15Scen.spreadCntRefused maxSpreadSize
-  simp [List.any_eq_true]
+  simp only [Bool.or_eq_true, decide_eq_true_eq, List.any_eq_true]
+  -- whatever the order and spelling of the two comparisons in the source: linear arithmetic
+  all_goals
+    constructor
+    · rintro (h | ⟨nc, hm, h⟩)
+      · exact Or.inl (by omega)
+      · exact Or.inr ⟨nc, hm, by omega⟩
+    · rintro (h | ⟨nc, hm, h⟩)
+      · exact Or.inl (by omega)
+      · exact Or.inr ⟨nc, hm, by omega⟩
 
 /-- `decodeAmmo` hands the result of `SpreadNames` to `CheckSpread` before it allocates the ring -/
 theorem spreadChecked_eq : Gen.C15Scen.spreadChecked = true := rfl
